@@ -21,7 +21,7 @@ func (verifNopReceiver) Receive(r io.Reader) error {
 	_, err := r.Read(buf)
 	return err
 }
-func (verifNopReceiver) Closing(_ error)           {}
+func (verifNopReceiver) Closing(_ error) {}
 
 // VerifExecuteWithoutConn runs request.Execute(next) for a request whose session has no
 // usable connection to any of nHosts hosts (the state a request is in when the pool of its
